@@ -176,6 +176,10 @@ def _model(case, ctx):
                 dtype_feat=['float32', 'float64'][int(rng.integers(0, 2))])
     if feat == 'sparse_rows':
         opts['feat_rows_mode'] = ['subset', 'complete_by_template', 'subset_unsorted'][case['seed'][2] % 3]
+    if feat != 'dense' and case['seed'][2] % 3 != 0:
+        opts['feat_pad'] = ['random', 'column'][case['seed'][2] % 3 - 1]       # -1 padded column tables (signed tables only)
+        if opts['feat_pad'] == 'column':
+            opts['nloc'] = 3
     if case['seed'][2] % 4 == 1:
         opts['feat_nan_rows'] = 2               # spikes whose stored values are all NaN
         opts['tfeat_nonfinite'] = 3
@@ -229,6 +233,10 @@ def _features(m, spec, desc, ctx, rng, feat):
                 ids = np.sort(ids) if desc['seed'][2] % 8 == 2 else ids
         k = int(rng.integers(1, min(4, nc) + 1))
         base = rng.permutation(nc)[:k]
+        if q == 2:
+            # ids that name no channel of the probe (the first one past the last channel, a far one): zero columns
+            base = np.r_[base[:2], [nc, nc + 93][desc['seed'][2] % 2]] if desc['seed'][2] % 2 else np.r_[nc, base[:2]]
+            k = len(base)
         perms = list(itertools.permutations(base.tolist()))
         for perm in perms[:6]:
             ch = np.array(perm)
